@@ -21,13 +21,13 @@ const ModulePath = "github.com/chrislusf/seaweedfs/"
 
 // Prog is one type-checked, SSA-built view of /repo under one build configuration.
 type Prog struct {
-	Tags   string
-	Dir    string
-	Pkgs   []*packages.Package
-	ByPath map[string]*packages.Package
-	SSA    *ssa.Program
-	Fset   *token.FileSet
-	NFuncs int
+	Tags    string
+	Dir     string
+	Pkgs    []*packages.Package
+	ByPath  map[string]*packages.Package
+	SSA     *ssa.Program
+	Fset    *token.FileSet
+	NFuncs  int
 	callers map[*ssa.Function][]ssa.CallInstruction
 }
 
